@@ -9,6 +9,9 @@ package main
 //	F9  the worker group's error handler is reached only through the classification
 
 import (
+	"os"
+	"path/filepath"
+	"strconv"
 	"strings"
 	"fmt"
 	"go/ast"
@@ -787,5 +790,342 @@ func ruleP6(c *Ctx, pkgs map[string]bool) {
 	}
 	if n == 0 {
 		R.OK("P6", "pipeline-packages/no-nonblocking-pipe", "-", "no non-blocking pipe is built outside the channel wrapper's own API")
+	}
+}
+
+// ---------------------------------------------------------------- R2
+
+// ruleR2: under the module's language version (go.mod says < 1.22) a for/range
+// variable is ONE variable for the whole loop. A function literal that mentions
+// it and outlives the iteration (stored, passed on, started with go/defer) sees
+// the value of the last iteration.
+func ruleR2(c *Ctx, pkgs map[string]bool) {
+	R := c.R
+	p := c.P
+	R.Rule("R2", "with per-loop (pre-Go-1.22) loop variables, as selected by the go directive of go.mod, no function literal that mentions a for/range variable outlives its iteration (it may only be called on the spot or handed to a synchronous helper)", 0)
+	perIteration := goVersionAtLeast(p.RepoDir, 1, 22)
+	if perIteration {
+		R.OK("R2", "go.mod/loopvar", "-", "go.mod selects Go >= 1.22: loop variables are per iteration")
+		return
+	}
+	la := c.Locks()
+	n := 0
+	for _, f := range p.Funcs {
+		if !pkgs[shortPkg(f.Pkg.PkgPath)] {
+			continue
+		}
+		info := f.Info()
+		walkNoLit(f.Body, func(x ast.Node) bool {
+			var vars []types.Object
+			var body *ast.BlockStmt
+			switch t := x.(type) {
+			case *ast.RangeStmt:
+				if t.Tok == token.DEFINE {
+					for _, e := range []ast.Expr{t.Key, t.Value} {
+						if id, ok := e.(*ast.Ident); ok && id.Name != "_" {
+							vars = append(vars, info.Defs[id])
+						}
+					}
+				}
+				body = t.Body
+			case *ast.ForStmt:
+				if as, ok := t.Init.(*ast.AssignStmt); ok && as.Tok == token.DEFINE {
+					for _, e := range as.Lhs {
+						if id, ok := e.(*ast.Ident); ok {
+							vars = append(vars, info.Defs[id])
+						}
+					}
+				}
+				body = t.Body
+			}
+			if body == nil || len(vars) == 0 {
+				return true
+			}
+			ast.Inspect(body, func(y ast.Node) bool {
+				lit, ok := y.(*ast.FuncLit)
+				if !ok {
+					return true
+				}
+				var used types.Object
+				ast.Inspect(lit.Body, func(z ast.Node) bool {
+					if id, ok := z.(*ast.Ident); ok {
+						for _, v := range vars {
+							if v != nil && info.Uses[id] == v {
+								used = v
+							}
+						}
+					}
+					return used == nil
+				})
+				if used == nil {
+					return true
+				}
+				// how is the literal used?
+				escapes := "stored or passed on"
+				switch par := p.Parent(lit).(type) {
+				case *ast.CallExpr:
+					if par.Fun == ast.Expr(lit) {
+						// func(){…}() — on the spot, unless started with go / deferred
+						switch p.Parent(par).(type) {
+						case *ast.GoStmt:
+							escapes = "started with go"
+						case *ast.DeferStmt:
+							escapes = "deferred to the end of the function"
+						default:
+							return true
+						}
+					} else {
+						for i, a := range par.Args {
+							if a == ast.Expr(lit) && la.isSyncPosition(info, par, i) {
+								return true // synchronous helper: runs within this iteration
+							}
+						}
+					}
+				}
+				n++
+				R.Fail("R2", fmt.Sprintf("%s/loopvar(%s)#%d", f.Name, used.Name(), n), p.Position(lit.Pos()),
+					fmt.Sprintf("%s: a function literal that mentions the loop variable %s is %s; go.mod selects pre-1.22 semantics, so every such literal sees the last iteration's value (e.g. every joined part reads the last operand)", f.Name, used.Name(), escapes))
+				return true
+			})
+			return true
+		})
+	}
+	if n == 0 {
+		R.OK("R2", "module/loopvar", "-", "no function literal that outlives its iteration mentions a loop variable")
+	}
+}
+
+func goVersionAtLeast(repoDir string, major, minor int) bool {
+	raw, err := os.ReadFile(filepath.Join(repoDir, "go.mod"))
+	if err != nil {
+		return false
+	}
+	for _, line := range strings.Split(string(raw), "\n") {
+		f := strings.Fields(line)
+		if len(f) == 2 && f[0] == "go" {
+			parts := strings.Split(f[1], ".")
+			if len(parts) >= 2 {
+				ma, _ := strconv.Atoi(parts[0])
+				mi, _ := strconv.Atoi(parts[1])
+				return ma > major || (ma == major && mi >= minor)
+			}
+		}
+	}
+	return false
+}
+
+// ---------------------------------------------------------------- R3
+
+// ruleR3: an operation that StartGroup / DoTimes runs in n goroutines at once
+// is built only from combinators whose result closure keeps no mutable
+// captured state.
+func ruleR3(c *Ctx) {
+	R := c.R
+	p := c.P
+	R.Rule("R3", "the operation handed to StartGroup / DoTimes (the same closure runs in n goroutines) is a chain of combinators whose returned literal writes no variable captured from the combinator's own body, and of literals that write no captured variable", 2)
+	stateful := func(g *Func) string {
+		if g == nil || g.Body == nil {
+			return ""
+		}
+		info := g.Info()
+		why := ""
+		walkNoLit(g.Body, func(x ast.Node) bool {
+			rs, ok := x.(*ast.ReturnStmt)
+			if !ok {
+				return true
+			}
+			for _, r := range rs.Results {
+				lit, ok := ast.Unparen(r).(*ast.FuncLit)
+				if !ok {
+					continue
+				}
+				if v := writesCaptured(info, lit, g.Body.Pos()); v != "" {
+					why = fmt.Sprintf("%s returns a closure that writes %s, a variable of the combinator's own body", g.Name, v)
+				}
+			}
+			return true
+		})
+		return why
+	}
+	n := 0
+	for _, f := range p.FuncsIn("fun", "itertool") {
+		info := f.Info()
+		walkNoLit(f.Body, func(x ast.Node) bool {
+			call, ok := x.(*ast.CallExpr)
+			if !ok {
+				return true
+			}
+			switch callName(info, call) {
+			case "fun.Operation.StartGroup", "fun.Worker.StartGroup", "fun.(*WaitGroup).DoTimes":
+			default:
+				return true
+			}
+			n++
+			at := fmt.Sprintf("%s/group#%d", f.Name, n)
+			pos := p.Position(call.Pos())
+			var chain ast.Expr = recvExpr(call)
+			if callName(info, call) == "fun.(*WaitGroup).DoTimes" && len(call.Args) == 3 {
+				chain = call.Args[2]
+			}
+			bad := ""
+			links := 0
+			for e := chain; e != nil; {
+				cc, ok := ast.Unparen(e).(*ast.CallExpr)
+				if !ok {
+					break
+				}
+				links++
+				if g := p.FuncOf(calleeFunc(info, cc)); g != nil {
+					if why := stateful(g); why != "" {
+						bad = why
+					}
+				}
+				for _, a := range cc.Args {
+					if lit, ok := ast.Unparen(a).(*ast.FuncLit); ok {
+						if v := writesCaptured(info, lit, f.Root().Body.Pos()); v != "" {
+							bad = fmt.Sprintf("a literal in the chain writes the captured variable %s", v)
+						}
+					}
+				}
+				e = recvExpr(cc)
+			}
+			R.Check(bad == "", "R3", at, pos, fmt.Sprintf("%d combinator link(s), none keeps mutable captured state", links),
+				fmt.Sprintf("%s starts one operation value in several goroutines, but %s: the workers overwrite each other's state (one item is delivered twice and another never, with the count unchanged)", f.Name, bad))
+			return true
+		})
+	}
+}
+
+// writesCaptured: lit assigns (outside nested literals handed to sync.Once.Do)
+// a variable declared before lit but at or after `from`.
+func writesCaptured(info *types.Info, lit *ast.FuncLit, from token.Pos) string {
+	out := ""
+	ast.Inspect(lit.Body, func(x ast.Node) bool {
+		var lhs []ast.Expr
+		switch s := x.(type) {
+		case *ast.AssignStmt:
+			if s.Tok == token.DEFINE {
+				// only pre-existing variables on the left of := count
+			}
+			lhs = s.Lhs
+		case *ast.IncDecStmt:
+			lhs = []ast.Expr{s.X}
+		case *ast.CallExpr:
+			if selName(s) == "Do" {
+				return false // once.Do(func(){ … }) publishes under the Once
+			}
+		}
+		for _, l := range lhs {
+			id, ok := ast.Unparen(l).(*ast.Ident)
+			if !ok {
+				continue
+			}
+			v, ok := info.Uses[id].(*types.Var)
+			if !ok || v.IsField() {
+				continue
+			}
+			if v.Pos() >= from && v.Pos() < lit.Pos() {
+				out = v.Name()
+			}
+		}
+		return true
+	})
+	return out
+}
+
+// ---------------------------------------------------------------- P7
+
+func ruleP7(c *Ctx, pkgs map[string]bool) {
+	R := c.R
+	p := c.P
+	R.Rule("P7", "a construct that fans an iterator out with Split never closes one of the split outputs on its own: each output carries the cancel function of the context the shared reader goroutine may have been started with, so closing the first-read output ends the reader for all workers", 1)
+	n := 0
+	for _, f := range p.Funcs {
+		if !pkgs[shortPkg(f.Pkg.PkgPath)] || f.Parent != nil {
+			continue
+		}
+		info := f.Info()
+		// variables holding the result of Split
+		var splits []types.Object
+		ast.Inspect(f.Body, func(x ast.Node) bool {
+			as, ok := x.(*ast.AssignStmt)
+			if !ok || len(as.Lhs) != 1 || len(as.Rhs) != 1 {
+				return true
+			}
+			if call, ok := ast.Unparen(as.Rhs[0]).(*ast.CallExpr); ok && callName(info, call) == "fun.(*Iterator).Split" {
+				if id, ok := as.Lhs[0].(*ast.Ident); ok {
+					if o := info.Defs[id]; o != nil {
+						splits = append(splits, o)
+					} else if o := info.Uses[id]; o != nil {
+						splits = append(splits, o)
+					}
+				}
+			}
+			return true
+		})
+		if len(splits) == 0 {
+			continue
+		}
+		n++
+		isSplitElem := func(e ast.Expr) bool {
+			e = ast.Unparen(resolveLocal(f, e))
+			if ix, ok := e.(*ast.IndexExpr); ok {
+				if id, ok := ast.Unparen(ix.X).(*ast.Ident); ok {
+					for _, s := range splits {
+						if info.Uses[id] == s {
+							return true
+						}
+					}
+				}
+			}
+			return false
+		}
+		bad := ""
+		ast.Inspect(f.Body, func(x ast.Node) bool {
+			call, ok := x.(*ast.CallExpr)
+			if ok && callName(info, call) == "fun.(*Iterator).Close" && isSplitElem(recvExpr(call)) {
+				bad = p.Position(call.Pos())
+			}
+			// range value over the splits
+			return true
+		})
+		if bad == "" {
+			// for _, s := range splits { … s.Close() … }
+			ast.Inspect(f.Body, func(x ast.Node) bool {
+				rs, ok := x.(*ast.RangeStmt)
+				if !ok {
+					return true
+				}
+				id, ok := ast.Unparen(rs.X).(*ast.Ident)
+				if !ok {
+					return true
+				}
+				isSplits := false
+				for _, s := range splits {
+					if info.Uses[id] == s {
+						isSplits = true
+					}
+				}
+				vid, _ := rs.Value.(*ast.Ident)
+				if !isSplits || vid == nil {
+					return true
+				}
+				v := info.Defs[vid]
+				ast.Inspect(rs.Body, func(y ast.Node) bool {
+					if call, ok := y.(*ast.CallExpr); ok && callName(info, call) == "fun.(*Iterator).Close" {
+						if rid, ok := ast.Unparen(recvExpr(call)).(*ast.Ident); ok && info.Uses[rid] == v {
+							bad = p.Position(call.Pos())
+						}
+					}
+					return true
+				})
+				return true
+			})
+		}
+		R.Check(bad == "", "P7", f.Name+"/split-outputs", p.Position(f.Pos()), "no split output is closed individually",
+			fmt.Sprintf("%s closes one split output (%s): the shared reader goroutine runs under the context of whichever output was read first, so closing that output stops the reader and the other workers see the end of the input — the rest is dropped without an error", f.Name, bad))
+	}
+	if n == 0 {
+		R.Fail("P7", "pipeline-packages/split-users", "-", "no construct uses Split any more")
 	}
 }
